@@ -215,9 +215,9 @@ func H_step() {
 		vAssume(!e.watchFlag)
 	}
 	if vParam("amevon") == 1 {
-		vAssume(d.isAntiMEVExtensionEnabled())
+		vAssume(e.amevOn())
 	} else if vParam("amevon") == 2 {
-		vAssume(!d.isAntiMEVExtensionEnabled())
+		vAssume(!e.amevOn())
 	}
 
 	// pre-state facts for event-time obligations
@@ -258,7 +258,7 @@ func H_step() {
 		case 5: // prepare response from the primary
 			vAssume(msg.height == d.BlockIndex && msg.view == d.ViewNumber && uint(msg.vidx) == d.PrimaryIndex)
 		case 6: // pre-commit while anti-MEV is off
-			vAssume(!d.isAntiMEVExtensionEnabled() && msg.height == d.BlockIndex && msg.view <= d.ViewNumber)
+			vAssume(!e.amevOn() && msg.height == d.BlockIndex && msg.view <= d.ViewNumber)
 		case 9: // re-delivery of a payload that is stored in its slot
 			var tab []ConsensusPayload[vhash]
 			switch api {
@@ -283,6 +283,10 @@ func H_step() {
 			vAssume(th != d.BlockIndex || tv != d.ViewNumber)
 		}
 		e.timeoutCurrent = th == d.BlockIndex && tv == d.ViewNumber
+		if e.armed && th == e.th && tv == e.tv {
+			e.armed = false // the expiry being delivered is consumed (C10.O3)
+			pre.armed = false
+		}
 		d.OnTimeout(th, tv)
 	case api == apiTransaction:
 		txh := vhash(vU64("tx.hash"))
@@ -293,7 +297,12 @@ func H_step() {
 			// C12: the supplied transaction is a requested one
 			vAssume(vpInList(d.MissingTransactions, txh))
 		}
-		e.preMissing = len(d.MissingTransactions)
+		e.preMissing = 0
+		for _, h := range d.TransactionHashes {
+			if _, has := d.Transactions[h]; !has && h != txh {
+				e.preMissing++ // proposed transactions still absent after this one
+			}
+		}
 		e.preAnswerOwed = d.IsBackup() && !d.Context.WatchOnly() && !d.NotAcceptingPayloadsDueToViewChanging() && d.RequestSentOrReceived() &&
 			d.PreparationPayloads[d.MyIndex] == nil && !d.blockProcessed && d.CommitPayloads[d.MyIndex] == nil && d.PreCommitPayloads[d.MyIndex] == nil
 		d.OnTransaction(&vTx{h: txh})
@@ -388,7 +397,7 @@ func vpStepObligations(e *vEnv, pre *vSnap, msg *vPayload) {
 		}
 	}
 	if e.want("C12") && e.api == apiTransaction {
-		if e.preAnswerOwed && vParam("lasttx") == 1 && e.preMissing == 1 {
+		if e.preAnswerOwed && vParam("lasttx") == 1 && e.preMissing == 0 {
 			vCover("C12.O2.last")
 			answered := false
 			for _, ev := range e.log {
@@ -436,7 +445,7 @@ func vpStepObligations(e *vEnv, pre *vSnap, msg *vPayload) {
 		}
 		if isReq {
 			vCover("C09.L2.request")
-			committed := e.preOwnCommit != nil || e.preOwnPreCommit != nil && d.isAntiMEVExtensionEnabled()
+			committed := e.preOwnCommit != nil || e.preOwnPreCommit != nil && e.amevOn()
 			inRange := false
 			if e.my >= 0 {
 				k := (e.my - int(msg.vidx) - 1 + 2*e.n) % e.n
@@ -495,6 +504,10 @@ func vpStepObligations(e *vEnv, pre *vSnap, msg *vPayload) {
 				vAssert("C16.O2.ignored", nAny == 0 && vpUnchanged(pre, e) && vpNoEffects(pre, e))
 			}
 		}
+	}
+	if e.want("C10") && e.api == apiTimeout && e.timeoutCurrent && !e.preWatch && !e.preBlockProcessed {
+		vCover("C10.O3.delivered")
+		vAssert("C10.O3.rearmed", d.blockProcessed || e.armed && e.nTimerReset > pre.nTimerReset)
 	}
 	if e.want("C10") && !d.Context.WatchOnly() && !d.blockProcessed {
 		vAssert("C10.O1.armed", e.armed && e.th == d.BlockIndex && e.tv == d.ViewNumber)
